@@ -41,9 +41,16 @@ fn park(id: usize, name: &'static str) {
     while g[id].gen == my { g = c.cv.wait(g).unwrap(); }
     g[id].at = None;
 }
+/// per agent: also stop at `write.unlocked`, i.e. right after a journal batch of the commit left its critical
+/// section (a transaction commit is one batch: everything it wrote must be visible by then)
+static PARK_UNLOCKED: [std::sync::atomic::AtomicBool; 8] = [const { std::sync::atomic::AtomicBool::new(false) }; 8];
 fn hook(name: &'static str) {
     if let Some(id) = AGENT.with(|a| a.get()) {
-        match name { "swtx.locked" | "swtx.committed" => park(id, name), _ => {} }
+        match name {
+            "swtx.locked" | "swtx.committed" => park(id, name),
+            "write.unlocked" if id < 8 && PARK_UNLOCKED[id].load(std::sync::atomic::Ordering::Acquire) => park(id, name),
+            _ => {}
+        }
     }
 }
 fn release(id: usize) { let c = ctl(); let mut g = c.m.lock().unwrap(); g[id].gen += 1; g[id].at = None; c.cv.notify_all(); }
@@ -297,13 +304,16 @@ fn run_case(seed: u64, lean: &mut Lean, hist: &mut BTreeMap<String, u64>, sample
                 if exp != tx_outs[id] {
                     fails.push(Failure { kind: "impl-vs-oracle", detail: format!("thread {id}'s {} transaction observed {:?}; executed alone at its {} it observes {:?} (ops: {}); trace: {}", kind_word(job.kind), tx_outs[id], if job.kind == Kind::Ro { "snapshot" } else { "commit point" }, exp, job.ops.iter().map(|o| o.spec(&ids)).collect::<Vec<_>>().join(" ; "), trace.join(" | ")) });
                 }
+                let hold_mid_commit = job.kind == Kind::Commit && id < 8 && r.chance(1, 2);
+                if id < 8 { PARK_UNLOCKED[id].store(hold_mid_commit, std::sync::atomic::Ordering::Release); }
                 release(id);
                 let p = wait_parked(id, t);
                 let (_, a) = ask!("sw.step {id}");
                 match job.kind {
                     Kind::Commit => {
-                        trace.push(format!("t{id}:commit"));
-                        if p != Some("swtx.committed") { fails.push(Failure { kind: "harness", detail: format!("agent {id} after commit at {p:?}") }); }
+                        trace.push(format!("t{id}:commit{}", if p == Some("write.unlocked") { " (held right after its journal batch left the critical section)" } else { "" }));
+                        if p == Some("write.unlocked") { *hist.entry("commit-held-after-its-batch".into()).or_insert(0) += 1; }
+                        if p != Some("swtx.committed") && p != Some("write.unlocked") { fails.push(Failure { kind: "harness", detail: format!("agent {id} after commit at {p:?}") }); }
                         refm = m; commits += 1; committers.insert(id);
                         if !a.starts_with("committed") && !no_model() { fails.push(Failure { kind: "model-vs-impl", detail: format!("commit: model says `{a}`") }); }
                     }
@@ -322,7 +332,17 @@ fn run_case(seed: u64, lean: &mut Lean, hist: &mut BTreeMap<String, u64>, sample
                     }
                 }
             }
+            "write.unlocked" => {
+                // the commit goes on: a transaction commit is one journal batch, so the next stop is the end of the commit
+                release(id);
+                let p = wait_parked(id, t);
+                trace.push(format!("t{id}:commit continues"));
+                if p == Some("write.unlocked") { fails.push(Failure { kind: "impl-vs-oracle", detail: format!("the commit of thread {id}'s transaction went through a second journal batch: a transaction is not committed as one batch; trace: {}", trace.join(" | ")) }); }
+                else if p != Some("swtx.committed") { fails.push(Failure { kind: "harness", detail: format!("agent {id} after its batch at {p:?}") }); }
+                if id < 8 { PARK_UNLOCKED[id].store(false, std::sync::atomic::Ordering::Release); }
+            }
             "swtx.committed" => {
+                if id < 8 { PARK_UNLOCKED[id].store(false, std::sync::atomic::Ordering::Release); }
                 release(id);
                 let p = wait_parked(id, t);
                 if p.is_none() { fails.push(Failure { kind: "harness", detail: format!("agent {id} stuck after commit") }); }
